@@ -326,6 +326,17 @@ WatsonMStep(r) ==
            /\ \/ (kap = FZero /\ FLe(FMul(ell, FInt(D)), FMul(mass, FAdd(FOne, FNorm(4096, -19)))))
               \/ kap = r.kmax
               \/ Close(FMul(ratio, mass), ell, FAdd(mass, ell), 4096)
+\* complex circularly symmetric Gaussian: covariance = sum_n g_n y_n y_n^H / sum_n g_n  (weighted outer-product mean)
+CGaussMStep(r) ==
+  \A i \in 1..Len(LeadIdx(r)) : \A k \in 0..(KOf(r) - 1) :
+     LET ld == LeadIdx(r)[i] D == DOf(r)
+         one(n) == FOne
+         S(a, b) == ScatterS(r, ld, k, a, b, one)
+         mass == Mass(r, ld, k)
+     IN  mass # FZero =>
+           \A a, b \in 0..(D - 1) :
+              LET c == FieldAt(r, "cgauss_covariance", ld \o <<k, a, b>>)
+              IN  ZClose(ZScale(mass, c), S(a, b)[1], FAdd(S(a, b)[2], FMul(mass, ZL1(c))), MS)
 \* Bingham: every column v_e of the stored eigenvector matrix is an eigenvector of the weighted scatter S / mass with
 \* eigenvalue s_e = v_e^H S v_e / mass (ascending), and the concentration eigenvalues solve
 \*    d log c(lambda) / d lambda_e = s_e
@@ -351,6 +362,8 @@ BinghamMStep(r) ==
                                           /\ FLt(FSub(lam(e), lam(e - 1)), inner)
      IN  mass # FZero =>
            /\ \A e \in 0..(D - 1) : r.bingham_lambda[base + e + 1] = lam(e)
+           \* clipped to the allowed range: 0 >= lambda_e >= -max_concentration (up to the duplicate spreading eps)
+           /\ \A e \in 0..(D - 1) : FLe(FNeg(FMul(r.kmax, FAdd(FOne, FNorm(1, -10)))), lam(e)) /\ FLe(lam(e), FNorm(1, -20))
            /\ \A e \in 0..(D - 1) : \A a \in 0..(D - 1) :
                  ZClose(Sv(a, e)[1], ZScale(ray(e), v(a, e)), FAdd(Sv(a, e)[2], FMul(FAbs(ray(e)), ZL1(v(a, e)))), MS)
            /\ \A e, g \in 0..(D - 1) :                    \* orthonormal columns
@@ -471,6 +484,7 @@ MStepChecks(r) ==
        \o (IF r.comp = "cacg" THEN << <<"cacg_tyler_step", CacgMStep(r)>> >> ELSE <<>>)
        \o (IF r.comp = "watson" THEN << <<"watson_estimator", WatsonMStep(r)>> >> ELSE <<>>)
        \o (IF r.comp = "bingham" THEN << <<"bingham_estimator", BinghamMStep(r)>> >> ELSE <<>>)
+       \o (IF r.comp = "cgauss" THEN << <<"complex_gaussian_outer_product_mean", CGaussMStep(r)>> >> ELSE <<>>)
        \o (IF r.comp = "vmf" THEN << <<"vmf_estimator", VmfMStep(r)>> >> ELSE <<>>)
        \o (IF r.comp = "gaussian" THEN << <<"gaussian_moments", GaussMStep(r)>> >> ELSE <<>>)
        \o (IF r.pooled = "gaussian" THEN << <<"pooled_gaussian_moments", PooledGauss(r)>> >> ELSE <<>>)
